@@ -295,6 +295,11 @@ def _result(inp, f, grp, r, before, after, data_arr):
 
     def strs(a):
         return [x.decode() if isinstance(x, bytes) else str(x) for x in a]
+    if any(a_ not in d_.attrs for d_ in (pi, si) for a_ in ('labels', 'units')):
+        # an accepted dataset whose ancillaries lack their description: nothing more to read, the verdict is the oracle's
+        res['anc'] = None
+        res['new_members'] = sorted(k for k in after if k not in before)
+        return res
     res['anc'] = {'pos_labels': strs(pi.attrs['labels']), 'spec_labels': strs(si.attrs['labels']),
                   'pos_units': strs(pi.attrs['units']), 'spec_units': strs(si.attrs['units']),
                   'pos_inds': pi[()].T.tolist(), 'spec_inds': si[()].tolist(),
@@ -349,6 +354,9 @@ def _check_ok(inp, res, what, fails):
     if res.get('main_attrs_ok') is False:
         fails.append('%s-main-attrs: the extra attributes for the main dataset were not stored as given' % what)
     a = res['anc']
+    if a is None:
+        fails.append('%s-undescribed: the linked ancillary datasets carry no labels / units' % what)
+        return
     n, m = gen.n_points(ds['pos']), gen.n_points(ds['spec'])
     for side, key in ((ds['pos'], 'pos'), (ds['spec'], 'spec')):
         # stored order must be slowest -> fastest; coordinates must be the caller's
